@@ -2,6 +2,8 @@ package filesystem
 
 import (
 	"context"
+	"os"
+	"syscall"
 
 	"github.com/ARM-software/golang-utils/utils/zz_verif/verif"
 )
@@ -229,5 +231,60 @@ func VerifC06_Programs() {
 			budget--
 			return nil
 		}
+	}
+}
+
+// VerifC06_Faults: the backend fails the k-th operation of a call: whatever the
+// position, no handle is left open and nothing but the destination changes.
+func VerifC06_Faults() {
+	rec, fs := vNewFs()
+	_ = fs.MkDir("/a")
+	_ = fs.WriteFile("/a/f", []byte("f"), 0o644)
+	_ = fs.WriteFile("/a/g", []byte("g"), 0o644)
+	_ = fs.MkDir("/d")
+	before := vSnapshot(rec.inner, "/")
+	rec.reset()
+	faultAt := verif.Len("faultAt", 1, 30)
+	count := 0
+	faulted := false
+	rec.before = func(op *vOp) error {
+		count++
+		if count == faultAt && op.name != "Close" {
+			faulted = true
+			return &os.PathError{Op: "fault", Path: op.path, Err: syscall.EIO}
+		}
+		return nil
+	}
+	ctx := context.Background()
+	var dst string
+	switch verif.Choice("op", 6) {
+	case 0:
+		dst = "/d/f"
+		_ = fs.CopyToFileWithContext(ctx, "/a/f", dst)
+	case 1:
+		dst = "/d"
+		_ = fs.CopyToDirectoryWithContext(ctx, "/a/f", dst)
+	case 2:
+		dst = "/d/a"
+		_ = fs.CopyWithContext(ctx, "/a", dst)
+	case 3:
+		dst = "/d/w"
+		_ = fs.WriteFile(dst, []byte("w"), 0o644)
+	case 4:
+		dst = ""
+		_, _ = fs.ReadFile("/a/f")
+	case 5:
+		dst = ""
+		_, _ = fs.Ls("/a")
+	}
+	rec.before = nil
+	verif.Assume(faulted)
+	verif.Assert("no_handle_left_open", rec.opens == rec.closes)
+	after := vSnapshot(rec.inner, "/")
+	verif.Assert("copy_leaves_its_source_untouched", vSameTree(vSubtree(before, "/a"), vSubtree(after, "/a")))
+	if dst != "" {
+		verif.Assert("only_destination_changes", vChangesConfinedTo(before, after, dst))
+	} else {
+		verif.Assert("query_changes_nothing", vSameTree(before, after))
 	}
 }
